@@ -28,10 +28,17 @@ def pipeline(tier):
     p = vlib.run_cmd([binary, "-test.run", "^TestVerifGlob$", "-test.timeout", "3000s"], env=env, cwd=wd)
     if p.returncode != 0:
         raise Inconclusive("glob harness failed (exit %d):\n%s" % (p.returncode, p.stdout[-3000:]))
+    b2 = vlib.build_test("", wd, name="dawn")
+    p = vlib.run_cmd([b2, "-test.run", "^TestVerifGlobFS$", "-test.timeout", "3000s"],
+                     env=dict(env, VERIF_GLOBFS_RANDOM="300" if quick else "5000"), cwd=wd)
+    if p.returncode != 0:
+        raise Inconclusive("glob() / ignore harness failed (exit %d):\n%s" % (p.returncode, p.stdout[-3000:]))
     lines = [json.loads(l) for l in open(opath)]
+    res["glob_builtin_calls"] = sum(1 for l in lines for e in l["events"] if e["ev"] == "Glob")
+    res["ignore_lists"] = sum(1 for l in lines for e in l["events"] if e["ev"] == "Ignore")
     res["pattern_lists"] = sum(len(l["events"]) for l in lines)
-    res["matches"] = sum(len(e["results"]) for l in lines for e in l["events"])
-    res["panics"] = [e for l in lines for e in l["events"] if "panic" in e][:3]
+    res["matches"] = sum(len(e.get("results", [])) for l in lines for e in l["events"])
+    res["panics"] = [e for l in lines for e in l["events"] if "panic" in e or str(e.get("err", "")).startswith("panic:")][:3]
     viols, n = vlib.eval_traces(SPEC, "GlobTraceP", "GlobTraceP.cfg",
                                 [{"id": l["id"], "events": [{k: v for k, v in e.items() if k != "panic"} for e in l["events"]]} for l in lines],
                                 shards=14, timeout=3000)
@@ -40,9 +47,10 @@ def pipeline(tier):
         for x in v["viol"]:
             out.append({"prop": "C17", "what": x["what"], "x": x.get("x"), "id": v["id"]})
     for e in res["panics"]:
-        out.append({"prop": "C17", "what": "CompileGlobs panicked", "x": e["pats"], "id": ""})
+        out.append({"prop": "C17", "what": "glob code panicked", "x": e.get("pats") or [e.get("include"), e.get("exclude")], "id": ""})
     res["violations"] = out
-    res["samples"] = [{"pats": e["pats"], "compiled": e["compiled"], "results": e["results"][:6]} for e in lines[len(lines) // 2]["events"][:2]]
+    res["samples"] = [{"pats": e["pats"], "compiled": e["compiled"], "results": e["results"][:6]} for e in lines[2]["events"][:2]] + \
+                     [e for l in lines[-3:] for e in l["events"][:1]]
     res["wall_s"] = time.time() - t0
     return res
 
@@ -62,6 +70,7 @@ def check(prop, tier):
     cov = {"states": res["design"]["distinct"], "transitions": res["design"]["generated"],
            "traces_validated_against_impl": res["matches"], "samples": res["samples"],
            "pattern_lists_compiled": res["pattern_lists"], "match_results_evaluated": res["matches"],
+           "glob_builtin_calls": res["glob_builtin_calls"], "ignore_lists_loaded": res["ignore_lists"],
            "evaluations": res["matches"], "distinct_nontrivial": res["pattern_lists"], "exhaustive": True,
            "rule": "all single patterns up to length 3 (quick) / 4 (thorough), all pairs of patterns up to length 2 and all triples of length 1 over {a b / . * ? \\ +} x all paths up to length 4 (3 for lists) over {a b . /}, plus seeded longer lists; distinct = distinct pattern lists",
            "family_wall_s": round(res["wall_s"], 1)}
